@@ -59,7 +59,7 @@ def run(ctx):
     import random
     longs = [(32, "sparse", 80, 70, s) for s in range(2 if ctx.quick else 6)] + [(12, "dense", 640, 400, 0)]
     if not ctx.quick:
-        longs += [(20, "sparse", 120, 110, 1), (12, "dense", 1100, 1500, 1), (10, "dense", 1024, 1200, 2)]
+        longs += [(20, "sparse", 120, 110, 1), (12, "dense", 900, 800, 1), (10, "dense", 700, 700, 2)]      # measured: 400 dense ops 29 s; the root term grows with the history
 
     def gen_long(spec):
         d, kind, ncand, ops, k = spec
